@@ -196,16 +196,17 @@ func checkC11(r *core.Run) {
 				batch = p
 			}
 		}
-		requeuesAll := func(pkg *packages.Package, rs *ast.RangeStmt) []flow.Tag {
-			if batch == nil || !isObj(pkg.TypesInfo, rs.X, batch) {
-				return nil
+		// rangeRequeues: the loop ranges over the slice variable `over` and sends the ranged element on the queue
+		// unconditionally, with no way out of the loop
+		rangeRequeues := func(fn *core.FuncInfo, rs *ast.RangeStmt, over types.Object) bool {
+			if over == nil || !isObj(fn.Pkg.TypesInfo, rs.X, over) {
+				return false
 			}
-			// body: unconditional send of the ranged element on the queue, no break/return
 			sends, early := false, false
 			for _, s := range rs.Body.List {
-				if ss, ok := s.(*ast.SendStmt); ok && isQueueSend(pkg.TypesInfo, ss) {
-					o := origin(h, ss.Value, 3)
-					if strings.Contains(o, "param:"+batch.Name()) || strings.Contains(o, "range(param:"+batch.Name()+")") {
+				if ss, ok := s.(*ast.SendStmt); ok && isQueueSend(fn.Pkg.TypesInfo, ss) {
+					o := origin(fn, ss.Value, 3)
+					if strings.Contains(o, "param:"+over.Name()) || strings.Contains(o, "range(param:"+over.Name()+")") {
 						sends = true
 					}
 				}
@@ -221,19 +222,83 @@ func checkC11(r *core.Run) {
 				}
 				return true
 			})
-			if sends && !early {
+			return sends && !early
+		}
+		requeuesAll := func(pkg *packages.Package, rs *ast.RangeStmt) []flow.Tag {
+			if pkg == h.Pkg && rangeRequeues(h, rs, batch) {
 				return []flow.Tag{"requeued-all"}
 			}
 			return nil
 		}
+		// a requeue helper: a function of the package whose body is (only) a loop that puts every element of its
+		// slice / variadic parameter back on the queue; returns the index of that parameter
+		requeueHelper := func(callee *types.Func) (int, bool) {
+			g := w.Info(callee)
+			if g == nil || g.Decl.Body == nil || g.Pkg != h.Pkg || g == h {
+				return 0, false
+			}
+			for i, p := range paramObjs(g) {
+				if _, ok := p.Type().Underlying().(*types.Slice); !ok {
+					continue
+				}
+				for _, st := range g.Decl.Body.List {
+					rs, ok := st.(*ast.RangeStmt)
+					if ok && rangeRequeues(g, rs, p) && everyPathReaches(g, rs) {
+						return i, true
+					}
+				}
+			}
+			return 0, false
+		}
+		// variables holding the error of a delete call
+		delErr := map[types.Object]bool{}
+		ast.Inspect(h.Decl.Body, func(n ast.Node) bool {
+			if as, ok := n.(*ast.AssignStmt); ok && len(as.Rhs) == 1 {
+				if c, ok := ast.Unparen(as.Rhs[0]).(*ast.CallExpr); ok && isIfaceOrImpl(w, core.Callee(info, c), "pkg/datasource/sql/undo", "UndoLogManager", "BatchDeleteUndoLog") {
+					if o := core.ObjOf(info, as.Lhs[len(as.Lhs)-1]); o != nil {
+						delErr[o] = true
+					}
+				}
+			}
+			return true
+		})
 		sp := &flow.Spec{W: w, Depth: 0, LoopTags: requeuesAll,
 			StmtTags: func(pkg *packages.Package, s ast.Stmt) []flow.Tag {
 				if isQueueSend(pkg.TypesInfo, s) {
-					return []flow.Tag{"requeued-one"}
+					return []flow.Tag{"requeued-one", "-owed"}
+				}
+				return nil
+			},
+			// the branch on which a delete is known to have failed owes that item to the queue
+			CondTags: func(pkg *packages.Package, cond ast.Expr, branch bool) []flow.Tag {
+				if pkg != h.Pkg {
+					return nil
+				}
+				for o := range delErr {
+					if condImpliesNil(pkg.TypesInfo, cond, branch, o, false) {
+						return []flow.Tag{"owed"}
+					}
 				}
 				return nil
 			},
 			Classify: func(pkg *packages.Package, call *ast.CallExpr, callee *types.Func) []flow.Tag {
+				if pi, ok := requeueHelper(callee); ok && pkg == h.Pkg {
+					sig := callee.Type().(*types.Signature)
+					if pi < len(call.Args) {
+						a := call.Args[pi]
+						whole := !sig.Variadic() || pi != sig.Params().Len()-1 || call.Ellipsis.IsValid()
+						if whole {
+							if batch != nil && isObj(pkg.TypesInfo, a, batch) {
+								return []flow.Tag{"requeued-all", "-owed"}
+							}
+							return nil
+						}
+						if len(call.Args) == sig.Params().Len() {
+							return []flow.Tag{"requeued-one", "-owed"}
+						}
+					}
+					return nil
+				}
 				switch {
 				case stdMethod(callee, "sync", "Map", "Load"):
 					return []flow.Tag{"lookup"}
@@ -275,30 +340,19 @@ func checkC11(r *core.Run) {
 				}
 			}
 		}
-		// a failed delete requeues that item: the send sits in the failure branch of the delete call
-		perItem := false
-		ast.Inspect(h.Decl.Body, func(n ast.Node) bool {
-			ifs, ok := n.(*ast.IfStmt)
-			if !ok || ifs.Init == nil {
-				return true
+		// a failed delete requeues that item: no path from the branch that knows the delete failed reaches the next
+		// delete or a return without a send on the queue (directly or through a requeue helper)
+		perItem := len(delErr) > 0
+		for _, cp := range res.Calls {
+			if inSet("delete", cp.Tags...) && cp.Before.Maybe("owed") {
+				perItem = false
 			}
-			as, ok := ifs.Init.(*ast.AssignStmt)
-			if !ok || len(as.Rhs) != 1 {
-				return true
+		}
+		for _, ex := range res.Exits {
+			if ex.St.Maybe("owed") {
+				perItem = false
 			}
-			c, ok := as.Rhs[0].(*ast.CallExpr)
-			if !ok || !isIfaceOrImpl(w, core.Callee(info, c), "pkg/datasource/sql/undo", "UndoLogManager", "BatchDeleteUndoLog") {
-				return true
-			}
-			if condImpliesNil(info, ifs.Cond, true, core.ObjOf(info, as.Lhs[0]), false) {
-				for _, s := range ifs.Body.List {
-					if isQueueSend(info, s) {
-						perItem = true
-					}
-				}
-			}
-			return true
-		})
+		}
 		r.Sites++
 		r.Check(perItem, "C11.requeue", key+" failed delete requeues the item", w.Pos(h.Decl.Pos()), "the item whose delete failed is put back on the queue", "an item whose delete failed is not put back on the queue")
 	}
@@ -680,4 +734,38 @@ func c11Handoff(r *core.Run, aw *types.Named) {
 		}
 		return true
 	})
+}
+
+// everyPathReaches: the statement is a top-level statement of the function's body and nothing before it can
+// leave the function (no return, goto or panic call textually before it).
+func everyPathReaches(g *core.FuncInfo, st ast.Stmt) bool {
+	top := false
+	for _, s := range g.Decl.Body.List {
+		if s == st {
+			top = true
+		}
+	}
+	if !top {
+		return false
+	}
+	ok := true
+	ast.Inspect(g.Decl.Body, func(n ast.Node) bool {
+		if n == nil || n.Pos() >= st.Pos() {
+			return n != nil && n.Pos() < st.Pos()
+		}
+		switch x := n.(type) {
+		case *ast.ReturnStmt:
+			ok = false
+		case *ast.BranchStmt:
+			if x.Tok == token.GOTO {
+				ok = false
+			}
+		case *ast.CallExpr:
+			if id, isID := ast.Unparen(x.Fun).(*ast.Ident); isID && id.Name == "panic" {
+				ok = false
+			}
+		}
+		return true
+	})
+	return ok
 }
